@@ -263,6 +263,9 @@ impl System for GrammarSys {
             GAct::Tick => "tick".to_string(),
         }
     }
+    fn rust_preamble(&self) -> String {
+        format!("// build with RUSTFLAGS=\"--cfg helgoboss_midi_verif\" for the mock clock\n    let mut scanner = helgoboss_midi::PollingParameterNumberMessageScanner::new(std::time::Duration::from_millis({}));\n    let mut clock = 0u64;", self.timeout)
+    }
     fn rust_line(&self, a: &GAct) -> String {
         match a {
             GAct::Cc(c, v) => format!("println!(\"{{:?}}\", scanner.feed(&helgoboss_midi::test_util::control_change({}, {}, {})));", self.ch, c, v),
